@@ -23,7 +23,7 @@ def equilibrium(params, ns, pts, sig1 = 0.0, sig2 = 0.0, theta1 = 1.0, theta2 = 
         folded (bool): If True, fold the frequency spectrum (if we assume we don't know the order that derived alleles appeared).
     """
     x = np.linspace(0,1,pts+1)
-    sig1,sig2 = np.float(sig1),np.float(sig2)
+    sig1,sig2 = float(sig1),float(sig2)
 
     y1 = dadi.PhiManip.phi_1D(x,gamma=sig1)
     y2 = dadi.PhiManip.phi_1D(x,gamma=sig2)
@@ -71,7 +71,7 @@ def two_epoch(params, ns, pts, sig1 = 0.0, sig2 = 0.0, theta1 = 1.0, theta2 = 1.
     nu,T = params
 
     x = np.linspace(0,1,pts+1)
-    sig1,sig2 = np.float(sig1),np.float(sig2)
+    sig1,sig2 = float(sig1),float(sig2)
 
     y1 = dadi.PhiManip.phi_1D(x,gamma=sig1)
     y2 = dadi.PhiManip.phi_1D(x,gamma=sig2)
@@ -123,7 +123,7 @@ def three_epoch(params, ns, pts, sig1 = 0.0, sig2 = 0.0, theta1 = 1.0, theta2 = 
     """
     nu1,nu2,T1,T2 = params
     x = np.linspace(0,1,pts+1)
-    sig1,sig2 = np.float(sig1),np.float(sig2)
+    sig1,sig2 = float(sig1),float(sig2)
     
     y1 = dadi.PhiManip.phi_1D(x,gamma=sig1)
     y2 = dadi.PhiManip.phi_1D(x,gamma=sig2)
@@ -180,7 +180,7 @@ def bottlegrowth(params, ns, pts, sig1 = 0.0, sig2 = 0.0, theta1 = 1.0, theta2 =
         nu = lambda t: nuB*np.exp(np.log(nuF/nuB) * t/T)
     
     x = np.linspace(0,1,pts+1)
-    sig1,sig2 = np.float(sig1),np.float(sig2)
+    sig1,sig2 = float(sig1),float(sig2)
     
     y1 = dadi.PhiManip.phi_1D(x,gamma=sig1)
     y2 = dadi.PhiManip.phi_1D(x,gamma=sig2)
